@@ -287,21 +287,41 @@ impl<'a, 'b> Gen<'a, 'b> {
 
     fn gen_lambda(&mut self, args: &[Ty], rest: bool, ret: &Ty, scope: &Scope, fuel: u32) -> Expr {
         let (formals, inner) = self.gen_formals(args, rest, scope);
-        let body = self.gen_body(ret, &inner, fuel);
+        let body = self.gen_body_of(ret, &inner, fuel, args.is_empty() && !rest);
         Expr::Lambda(formals, Box::new(body))
     }
 
     /// a procedure body: internal definitions, statements, result expression
     fn gen_body(&mut self, ret: &Ty, scope: &Scope, fuel: u32) -> Body {
+        self.gen_body_of(ret, scope, fuel, false)
+    }
+
+    fn gen_body_of(&mut self, ret: &Ty, scope: &Scope, fuel: u32, thunk: bool) -> Body {
         let mut inner = scope.clone();
         let mut defs = vec![];
         if fuel > 0 {
-            let n_defs = self.ch.weighted(&[6, 3, 2]);
+            let mut n_defs = self.ch.weighted(&[6, 3, 2]);
+            if thunk && n_defs == 0 && self.ch.chance(1, 2) {
+                n_defs = 1;
+            }
             // names and types first: lambdas may refer to later definitions
             let mut planned: Vec<(Name, Ty)> = vec![];
             for _ in 0..n_defs {
-                let ty = if self.ch.chance(2, 5) { self.gen_fn_ty(1) } else { self.gen_simple_ty() };
-                let name = if matches!(ty, Ty::Fn(..)) { self.fresh_fn(&inner) } else { self.fresh_var(&inner) };
+                let mut ty = if self.ch.chance(2, 5) { self.gen_fn_ty(1) } else { self.gen_simple_ty() };
+                let mut name = if matches!(ty, Ty::Fn(..)) { self.fresh_fn(&inner) } else { self.fresh_var(&inner) };
+                // in a parameterless procedure, prefer a name (and type) that is already bound outside: the internal
+                // definition must shadow it for the body only
+                if thunk && self.ch.chance(2, 3) {
+                    let outer: Vec<(Name, Ty)> = scope.iter().filter(|(_, t)| !matches!(t, Ty::Fn(..))).cloned().collect();
+                    if !outer.is_empty() {
+                        let (n, t) = outer[self.ch.below(outer.len())].clone();
+                        if lookup(scope, &n) == Some(&t) {
+                            name = n;
+                            ty = t;
+                            self.labels.shadowings += 1;
+                        }
+                    }
+                }
                 if planned.iter().any(|(n, _)| *n == name) {
                     continue;
                 }
